@@ -44,12 +44,27 @@ def gen(rng, seed, stall_secs):
         chain.append(prev)
     stall_at = rng.randint(3, 9)
     k_inputs = [{'pub': prev, 'form': rng.choice(['all', 'main', 'star'])}]
-    variant = rng.choice(['plain', 'plain', 'plain', 'eph-source-first', 'replica'])
+    variant = rng.choice(['plain', 'plain', 'plain', 'eph-source-first', 'replica', 'outputs-timeout-0', 'balanced-feeder'])
+    if variant == 'outputs-timeout-0':
+        # the direct feeder never waits for its consumers (outputs_timeout=0 drops what nobody asked for) and is slower
+        # than the consumers' re-request interval
+        fd = p.by_id[prev]
+        fd['config']['outputs_timeout'] = 0
+        fd['beh']['proc_ms'] = [rng.choice([150, 250])]
+    if variant == 'balanced-feeder' and pos == 'one-of-several':
+        variant = 'plain'       # several synchronized consumers on ONE balanced output is not a balancing topology (DESIGN section 10)
+    if variant == 'balanced-feeder':
+        fd = p.by_id[prev]
+        fd['config']['outputs_balance'] = True
     if variant == 'eph-source-first':
         # the stalled consumer also listens to an unrelated publisher through an ephemeral source that is listed FIRST
         p.source('src2', {'nframes': 10 ** 7, 'proc_ms': [rng.choice([20, 100])], 'topics': ['cam2'], 'content': ['data']})
         k_inputs = [{'pub': 'src2', 'form': [('cam2', 'cam2')], 'eph': 1}] + k_inputs
     p.sink('K', k_inputs, {'proc_ms': cons_ms, 'stall': {'seq': stall_at, 'secs': stall_secs}})
+    if variant == 'balanced-feeder':
+        # a '?' listener that registers after K on the same (only) output of a load-balancing publisher
+        p.sink('eq', [{'pub': prev, 'form': 'all', 'eph': 1}], {'proc_ms': [rng.choice([0, 50])]})
+        p.by_id['eq']['start_ms'] = 600
     if pos == 'one-of-several':
         for j in range(rng.randint(1, 2)):
             o = p.sink(f'o{j}', [{'pub': prev, 'form': 'all'}], {'proc_ms': rng.choice([[0], [20]])})
@@ -58,11 +73,13 @@ def gen(rng, seed, stall_secs):
     if required:
         p.require_sync_consumers()
     for n in p.nodes:
-        n['start_ms'] = rng.choice([0, 0, rng.randint(0, 200)])
+        if n['id'] != 'eq':
+            n['start_ms'] = rng.choice([0, 0, rng.randint(0, 200)])
     link = {'max_delay_ms': rng.choice([0, 10, 50, 95]), 'conn_ms': [0, 30], 'sub_ms': [0, 20]}
     scn = scenarios.finish(p, seed, link, 40000 + stall_secs * 1000, family='stall', gauge=True, variant=variant, pos=pos, required=required, speed=speed,
                            stall_at=stall_at, stall_secs=stall_secs, chain=chain, stop_when_all_done=False)
-    must_wait = required or pos != 'one-of-several'
+    # with a '?' listener attached the publisher legitimately carries on for it once the stalled consumer was forgotten
+    must_wait = required or (pos != 'one-of-several' and variant != 'balanced-feeder')
     # the judged window ends at the resume (publisher must wait) or CONN_TIMEOUT after the stall began: stop shortly after
     scn['stop_after'] = {'node': 'K', 'evs': ['stall-end'] if must_wait else ['stall-begin', 'stall-end'], 'stall-end_ms': 1500,
                          'stall-begin_ms': CONN_TIMEOUT_MS + 100}
@@ -81,7 +98,10 @@ def judge(w, scn, res):
     t_resume = se['t'] if se else w.t_end
     chain = scn['chain']
     others = scn['pos'] == 'one-of-several'
-    must_wait = scn['required'] or not others
+    variant = scn.get('variant', 'plain')
+    must_wait = scn['required'] or (not others and variant != 'balanced-feeder')
+    if variant == 'outputs-timeout-0':
+        chain = chain[-1:]      # a feeder that drops instead of waiting does not stall ITS producers; only its own publications are bounded
     counts = {}
     # "silent for the connection timeout": the silence starts with the last request K sent before it stalled
     last_req = max((e['t'] for e in w.sim.log if e.get('ev') == 'push' and e['node'] == 'K' and e['t'] <= t0), default=t0)
@@ -106,7 +126,10 @@ def judge(w, scn, res):
     # consumers that are blocked because of the stall further downstream (relays j hops above K) and the free-running
     # siblings: their queues are bounded as well - 9 per hop of distance from the stalled consumer
     dist = {node: j for j, node in enumerate(reversed(chain), 1)}
+    topo_ = scenarios.Topo(scn)
     for (pub, sub), dmax in w.sim.depth_max.items():
+        if any(e_['eph'] for e_ in topo_.inputs_of(sub) if e_['pub'] == pub):
+            continue        # queues towards ephemeral listeners are not flow-controlled at all (only ZeroMQ's high-water mark)
         if sub != 'K':
             # blocked relays above K: 9 per hop of distance; free-running siblings: the tokens circulating between a fast
             # consumer and a fast publisher saturate around a dozen (duplicate requests at poll timeouts add tokens, collapsed
@@ -172,7 +195,7 @@ def run_shard(ctx):
             import traceback
             res.inconclusive.append(f'scenario crashed the harness: {type(e).__name__}: {e} {traceback.format_exc()[-500:]}')
             continue
-        must_wait = base['required'] or base['pos'] != 'one-of-several'
+        must_wait = base['required'] or (base['pos'] != 'one-of-several' and base.get('variant') != 'balanced-feeder')
         if must_wait and all(c is not None for c in per_len.values()):
             res.count('growth_comparisons')
             ref = per_len[lengths[0]]
